@@ -45,7 +45,7 @@
    `wf_mm` (e.g. a non-unique many-valued bidirectional end, which EMF rejects). *)
 From Coq Require Import ZArith List Bool Arith.
 From PyecoreV Require Import Lib.PyBase Lib.PyList Model.Kernel Proofs.KernelFacts Proofs.C01Proofs Proofs.C01Full
-  Proofs.WFBase Proofs.SymLink Proofs.OwnAll Proofs.WFCorollaries.
+  Proofs.WFBase Proofs.SymLink Proofs.OwnAll Proofs.WFCorollaries Model.Premises Proofs.PremisesProofs.
 Import ListNotations.
 
 Theorem C01_unset_keeps_symmetry_partial :
@@ -220,3 +220,12 @@ Print Assumptions C01_symmetric_in_every_reachable_state.
    history with re-parenting, x.twin = x and a resource append through the theorem *)
 Example C01_containment_premises_satisfiable : wf_mm ex_mm_link /\ ref_defaults_none ex_mm_link.
 Proof. exact ex_mm_link_wf. Qed.
+
+(* the same statement on the boolean premises that the harness evaluates, through the extracted
+   `run_premises`, for every case it runs on the implementation (evidence: cases_meeting_theorem_premises) *)
+Theorem C01_symmetric_whenever_the_evaluated_premises_hold :
+  forall m ops,
+    wf_mmb m = true -> ref_defaults_noneb m = true -> forallb (op_manyb m) ops = true ->
+    sym m (fold_left (next m) ops (init_state m)).
+Proof. exact checked_sym. Qed.
+Print Assumptions C01_symmetric_whenever_the_evaluated_premises_hold.
